@@ -232,4 +232,17 @@ def pipeline_property_violation(case, out):
         d = [("REV__" in p or "rev_" in p) for p in ids]
         if any(d) and not all(d):
             return "mixed-target-decoy-group-reported"
+    # C06: the per-protein peptide counts of a row are judged against the PEP cutoff of the FINAL grouping (rescue methods) - no
+    # cutoff otherwise; the evidence of a row is the list its score was computed from (recorded call of the last pass)
+    rec, mt = out.get("rec"), out.get("method_term", "")
+    if rec and "m_shared := false" in mt and rec["scores"]:
+        rescue = "GRescued" in mt
+        cut = Fraction(rec["cutoffs"][-1][1]) if (rescue and rec["cutoffs"]) else None
+        for r in rows:
+            infos = next((inf for inf, _ in reversed(rec["scores"]) if any(i[1] == r["best"] for i in inf)), None)
+            if infos is None:
+                continue
+            want = [len({i[1] for i in infos if (cut is None or Fraction(i[0]) <= cut) and p in i[2]}) for p in r["ids"].split(";")]
+            if want != list(r["counts"]):
+                return "peptide-counts-not-judged-against-the-cutoff-of-the-reported-grouping"
     return None
